@@ -44,7 +44,7 @@ def candidates_stmt(prog):
                 blk3, i3 = sites3[k]
                 s3 = blk3[i3]
                 inner = s3.f[br]
-                if inner and not any(x.k in ("break", "continue", "return", "raise") for x in inner[:-1]):
+                if inner and not any(x.k in ("break", "continue", "return", "raise", "raisemsg") for x in inner[:-1]):
                     blk3[i3:i3 + 1] = inner
                     yield p3
 
